@@ -68,7 +68,7 @@ class RuleReport:
         return self.add(key, where, UNDECIDED, msg, **extra)
 
     def oblige(self, name: str, discharged: bool, detail: str = '', where: str = '', key: Optional[str] = None,
-               positive: bool = True):
+               positive: bool = False):
         """A named obligation: recorded for proof-level evidence *and* as an instance.  positive=False: a
         failure only means the expected construct was not recognised (undecided, not a violation)."""
         self.obligations.append({'name': name, 'discharged': bool(discharged), 'detail': detail})
